@@ -296,14 +296,10 @@ class PreSerializedCall(Call[Params, Result]):
         :return: Complete serialized argument mapping
         """
         if self._serialized_arguments is None:
-            # Only serialize other_args not already in pre_serialized_args
-            other_only = {
-                k: v
-                for k, v in self.other_args.items()
-                if k not in self.common_serialized_args
-            }
+            # A call-specific argument overrides a common one of the same name, as in
+            # ``arguments`` and in the non-batch path (``common.update(params)``).
             serialized_other = self.app.client_data_store.serialize_arguments(
-                other_only, self.task.conf.disable_cache_args
+                self.other_args, self.task.conf.disable_cache_args
             )
             self._serialized_arguments = {
                 **self.common_serialized_args,
